@@ -195,11 +195,13 @@ def check_adaptive(ctx, kind, m, marked, subs, bnds, label, order=1, disjoint=Tr
     nvr = int(np.max(r.t)) + 1 if order == 2 else r.p.shape[1]
     dup = len(set(marked.tolist())) != len(marked)
     tagkey = 'adaptive'
-    if order == 1 and not r.is_valid() and not dup:
+    unused = sorted(set(range(m.p.shape[1])) - set(int(v) for v in m.t.ravel())) if order == 1 else []
+    if order == 1 and not unused and not r.is_valid() and not dup:
         ctx.fail(f'adaptive-invalid:{cname}', 'refined mesh fails is_valid()', data)
     if order == 2 and not r.is_valid():      # is_valid supports quadratic meshes since N38
         ctx.fail(f'adaptive-invalid:{cname}', 'refined second-order mesh fails is_valid()', data)
-    st = ex.Step(kind, m.p[:, :nv], m.t, r.p[:, :nvr], r.t, uniform=False, marked=sorted(set(marked.tolist())), disjoint=disjoint)
+    st = ex.Step(kind, m.p[:, :nv], m.t, r.p[:, :nvr], r.t, uniform=False, marked=sorted(set(marked.tolist())), disjoint=disjoint,
+                 unused_ok=unused)
     ctx.count(('adaptive', kind, cname, m.p.tolist(), m.t.tolist(), marked.tolist(),
                sorted((k, v.tolist()) for k, v in tags_s.items())),
               nontrivial=m.t.shape[1] >= 2 and 0 < len(set(marked.tolist())) < m.t.shape[1])
@@ -423,6 +425,20 @@ def run_oracle(ctx):
             check_marked_forms(ctx, kind, m1, rng)
             if kind != 'line':
                 check_marked_forms(ctx, kind, gm.skfem_cls(kind, 2).from_mesh(m1), rng)
+    # (c'') point arrays with points that belong to no cell (appended directly / made by `m @ far_copy`), every class
+    for kind in ('line', 'tri', 'tet'):
+        for i in range(ctx.n(4, 10)):
+            g = small_mesh(kind, rng, 6, ntmin=2)
+            m0 = gm.build(kind, g['p'], g['t'], g.get('sort_t'))
+            mu, how = gm.with_unused_points(kind, m0, rng, 'direct' if i % 2 == 0 else 'matmul')
+            nt = mu.t.shape[1]
+            cur, subs = mu, {'a': gm.random_tags(rng, nt)}
+            for step in range(2):
+                r = check_adaptive(ctx, kind, cur, gm.random_tags(rng, cur.t.shape[1]), subs, {}, f'unused-points:{how}/step{step}')
+                if r is None or not r.subdomains:
+                    break
+                cur = type(r)(r.p, r.t, **({'sort_t': r.sort_t} if kind == 'tri' else {}))
+                subs = {'a': r.subdomains['a']}
     # (d) N50: segments with unused trailing points — same intervals, same tags as for the mesh without them
     for _ in range(ctx.n(4, 12)):
         g = small_mesh('line', rng, 5, ntmin=2)
